@@ -66,7 +66,7 @@ theorem dot_replicate_zero (k : List F) (n : Nat) : dot k (List.replicate n (0 :
   induction k generalizing n with
   | nil => simp [dot]
   | cons x xs ih => cases n with
-    | zero => simp [dot]
+    | zero => simp
     | succ n => simp only [List.replicate_succ, dot_cons, ih]; ring
 
 /-! ### the little-endian `eq` tensor and `mleEval` -/
@@ -197,14 +197,14 @@ theorem colOf_zero (flat : List F) (n : Nat) (h : n ≤ flat.length) : colOf fla
   intro i
   by_cases hi : i < n
   · have : i < flat.length := by omega
-    simp [getD', hi, List.getElem?_take, this]
-  · simp [hi, List.getElem?_take]
+    simp [getD', hi, this]
+  · simp [hi]
 
 theorem dot_cols_outer (L R flat : List F) (n : Nat) (hL : L.length = n)
     (hf : flat.length = n * R.length) :
     dot ((List.range R.length).map fun col => dot L (colOf flat n col)) R = dot flat (outer L R) := by
   induction R generalizing flat with
-  | nil => simp [outer, dot]
+  | nil => simp [outer]
   | cons c R ih =>
     have hn : n ≤ flat.length := by rw [hf, List.length_cons, Nat.mul_succ]; omega
     have hd : (flat.drop n).length = n * R.length := by
@@ -266,25 +266,25 @@ theorem rowMul_rowsOf (flat L : List F) (n m : Nat) (hL : L.length = n) :
 theorem dot_map_add {α : Type} (l : List α) (f g : α → F) (L : List F) :
     dot (l.map fun x => f x + g x) L = dot (l.map f) L + dot (l.map g) L := by
   induction l generalizing L with
-  | nil => simp [dot]
+  | nil => simp
   | cons a l ih => cases L with
-    | nil => simp [dot]
+    | nil => simp
     | cons y ys => simp only [List.map_cons, dot_cons, ih]; ring
 
 theorem dot_map_smul {α : Type} (l : List α) (k : F) (f : α → F) (L : List F) :
     dot (l.map fun x => k * f x) L = k * dot (l.map f) L := by
   induction l generalizing L with
-  | nil => simp [dot]
+  | nil => simp
   | cons a l ih => cases L with
-    | nil => simp [dot]
+    | nil => simp
     | cons y ys => simp only [List.map_cons, dot_cons, ih]; ring
 
 theorem dot_map_zero {α : Type} (l : List α) (L : List F) :
     dot (l.map fun _ => (0 : F)) L = 0 := by
   induction l generalizing L with
-  | nil => simp [dot]
+  | nil => simp
   | cons a l ih => cases L with
-    | nil => simp [dot]
+    | nil => simp
     | cons y ys => simp only [List.map_cons, dot_cons, ih]; ring
 
 /-- `Σ_r L_r·⟨ks, M_r⟩ = ⟨ks, Lᵀ·M⟩` -/
